@@ -88,7 +88,6 @@ package oj
 //@   modifies p.stack, p.ri, p.mode, p.nextMode, p.line, p.noff, heap(p.stack)
 //@   ensures [C01 C09 sim] result == nil ==> VRel(p, spec.Run(qi, S, base+len(buf)), base+len(buf), base)
 //@   ensures [C01 accept] result == nil && last ==> spec.AcceptEOF(spec.Run(qi, S, base+len(buf)))
-//@   ensures [C07 maps] PMaps(p)
 //@   ensures [C01 C09 reject] result != nil ==> typeis(result, ParseError, ptr) && VErr(as(result, ParseError), as(result, ParseError).Column + p.noff, qi, S, base, len(buf), last)
 //@   ensures [C07 own] arrid(p.stack) == old(arrid(p.stack)) || fresh(p.stack)
 //@   loop 0
@@ -301,6 +300,7 @@ package oj
 //@   ensures [C01 C09 sim] result == nil && !last ==> PRel(p, spec.Run(qi, S, base+len(buf)), base+len(buf), base) && POwn(p, buf)
 //@   ensures [C01 accept] result == nil && last ==> spec.AcceptEOF(spec.Run(qi, S, base+len(buf)))
 //@   ensures [C07 maps] PMaps(p)
+//@   ensures [C06 noff] result == nil ==> -1 - base <= p.noff && p.noff < len(buf)
 //@   ensures [C01 C09 reject] result != nil ==> typeis(result, ParseError, ptr) && VErr(as(result, ParseError), as(result, ParseError).Column + p.noff, qi, S, base, len(buf), last)
 //@   loop 0
 //@     invariant [C01 C06 C09 bounds] 0 <= off && off <= len(buf) && depth == len(p.starts)
@@ -418,3 +418,64 @@ package oj
 //@     with base = 0
 //@     with qi = spec.Init(false)
 //@     use spec.Run.unfold(spec.Init(false), S, 0)
+
+// ---------------------------------------------------------------------------
+// Entry point: ParseReader (without options). R is the byte stream the reader delivers, in whatever pieces the reader
+// chooses; X is R without the BOM (shift is 3 when the stream starts with one). Both outcomes are stated over the stream
+// alone, so they cannot depend on the chunking (C03): err == nil only when the specification accepts the bytes
+// delivered, and a ParseError carries the position of the first byte on which the specification fails (C09).
+// Assumed about the reader (io.Reader contract): it returns 0 <= n <= len(p), touches nothing of the Parser and its own
+// errors are not *oj.ParseError; the stream is shorter than 2^60 bytes; the first Read delivers at least three bytes
+// when the stream starts with 0xEF (see DESIGN.md: BOM detection looks at the first buffer only).
+
+//@ func (*Parser).ParseReader
+//@   ghost R seq, X seq, shift int
+//@   ghostvar total = 0
+//@   ghostvar cb = 0
+//@   ghostvar cl = 0
+//@   opt forkappend = nonbyte
+//@   requires forall j: 0 <= j ==> X[j] == R[j + shift]
+//@   requires len(args) == 0 && r != nil
+//@   requires [own] PMaps(p) && 0 <= len(p.tmp) && 0 <= len(p.runeBytes) && 0 <= len(p.num.BigBuf)
+//@   modifies everything
+//@   ensures [C01 C03 accept] err == nil ==> spec.AcceptEOF(spec.Run(spec.Init(false), X, total - shift))
+//@   ensures [C01 C03 C09 reject] typeis(err, ParseError, ptr) ==> VErr(as(err, ParseError), as(err, ParseError).Column + p.noff, spec.Init(false), X, cb, cl, true)
+//@       || VErr(as(err, ParseError), as(err, ParseError).Column + p.noff, spec.Init(false), X, cb, cl, false)
+//@   ensures [C07 maps] PMaps(p)
+//@   loop 0
+//@     invariant p.OnlyOne
+//@   loop 1
+//@     invariant [C03 chunk] 0 <= total && (total == 0 ==> skip == shift) && (total > 0 ==> skip == 0) && skip <= len(buf)
+//@     invariant [C03 chunk] total + len(buf) <= 1152921504606846000
+//@     invariant [C03 chunk] forall j: 0 <= j && j < len(buf) ==> buf[j] == R[total + j]
+//@     invariant [C01 C03 C09 sim] PRel(p, spec.Run(spec.Init(false), X, total+skip-shift), total+skip-shift, total+skip-shift)
+//@     invariant [C07 own] POwn(p, buf)
+//@   loop 2
+//@     invariant -1 <= i && i < len(p.stack)
+//@     variant i + 1
+//@   at call Read#0
+//@     use spec.Run.unfold(spec.Init(false), X, 0)
+//@     assume !typeis($r1, ParseError, ptr)
+//@     assume forall j: 0 <= j && j < $r0 ==> buf[j] == R[j]
+//@     assume (shift == 0 || shift == 3) && ((shift == 3) <==> (2 < $r0 && R[0] == 0xEF && R[1] == 0xBB && R[2] == 0xBF))
+//@     assume $r0 <= 1152921504606846000
+//@   at call Read#1
+//@     assume !typeis($r1, ParseError, ptr)
+//@     assume forall j: 0 <= j && j < $r0 ==> buf[j] == R[total + j]
+//@     assume total + $r0 <= 1152921504606846000
+//@   at call parseBuffer#0
+//@     with S = X
+//@     with base = total + skip - shift
+//@     with qi = spec.Init(false)
+//@     use spec.Run.unfold(spec.Init(false), X, 0)
+//@     set cb = total + skip - shift
+//@     set cl = len(buf) - skip
+//@     set total = total + len(buf)
+//@   at call parseBuffer#1
+//@     with S = X
+//@     with base = total + skip - shift
+//@     with qi = spec.Init(false)
+//@     use spec.Run.unfold(spec.Init(false), X, 0)
+//@     set cb = total + skip - shift
+//@     set cl = len(buf) - skip
+//@     set total = total + len(buf)
